@@ -37,8 +37,8 @@ LEVEL_TEXT = {
             "forked processes (fork-view of the store, manager-list operations as yield points)."),
     "C07": ("exploration", "4/C07", "2-4 tasks x 1-2 object calls from several start states under the seeded baton-passing "
             "scheduler (uniform random, PCT, bounded pre-emption, probe-biased, race-directed postponing; yield points = every "
-            "file-system call, lock/condition operation, locked-identifier list operation and flock; a share of the runs in "
-            "multiprocessing mode); the recorded invoke/return history and the final alpha(directory) must be "
+            "file-system call, lock/condition operation, locked-identifier list operation and flock, and in 10% of the runs "
+            "every executed line of filehashstore.py; a share of the runs in multiprocessing mode); the recorded invoke/return history and the final alpha(directory) must be "
             "explained by a sequential order of the reference model. Search, not enumeration: evidence over ~10^4 (quick) "
             "to ~10^5-10^6 (thorough) schedules."),
     "C08": ("exploration", "4/C08", "Every CONC run must end with all tasks finished (the scheduler owns every blocking "
